@@ -134,10 +134,12 @@ def run_api_child(asan_src, reqs, extra_path=None, kcalls=None):
                 fh.write(json.dumps(r) + "\n")
             path = fh.name
         try:
-            p = subprocess.run([common.PY, os.path.join(AUX, "api_child.py"), path] +
-                               ([extra_path] if extra_path else []),
-                               stdout=subprocess.PIPE, stderr=subprocess.PIPE, text=True,
-                               env=env, timeout=3000, errors="replace")
+            # (the climate classes store / look up matrices in the working directory)
+            with tempfile.TemporaryDirectory(prefix="C20-cwd-") as cwd:
+                p = subprocess.run([common.PY, os.path.join(AUX, "api_child.py"), path] +
+                                   ([extra_path] if extra_path else []),
+                                   stdout=subprocess.PIPE, stderr=subprocess.PIPE, text=True,
+                                   env=env, timeout=3000, errors="replace", cwd=cwd)
         finally:
             os.unlink(path)
         cur, ready = None, False
@@ -531,6 +533,49 @@ def run(ctx):
         d1, d2 = dyadic(nprng, s1), dyadic(nprng, s2)
         add_api("tmi", f"call tmi {s1[0]} {s1[1]} {s2[0]} {s2[1]} 4 {enc_data(d1)} {enc_data(d2)}",
                 [A(d1, "float64"), A(d2, "float64")], [4], "surrogates-shape-differs", (s1, s2))
+    # caller arrays whose shape DIFFERS from the object's own, on real objects: every public method
+    # that forwards a caller-supplied array to a raw-pointer routine (the sizes handed to the C
+    # routine must be those of the array, not of the object)
+    for c in range(36 if quick else 160):
+        objN = rng.choice([2, 3, 4, 6, 7])
+        rel = ["fewer", "fewer", "more", "equal"][c % 4]
+        k = {"fewer": rng.randrange(1, objN), "more": objN + rng.randrange(1, 4), "equal": objN}[rel]
+        T = rng.choice([1, 2, 3, 5, 8, 10])            # (the object's own data have 8 samples)
+        an = nprng.randint(-8, 9, size=(T, k)) / 4.0 * 2.0 ** rng.choice([0, 0, -30, 30])
+        how = ["csm", "mi", "csm", "mi", "worker", "mi-dump"][c % 6]
+        nb = rng.choice([1, 2, 5, 32, 64]) if how == "worker" else 32
+        cls = f"object-has-{rel}-nodes:{how}"
+        add_api("mi_obj", mi_model_request(an, nb, objN), [variant(an, fdt())], [objN, how, nb], cls,
+                (objN, T, k, how, nb, an.tobytes().hex()), True,
+                {"entry": "MutualInfoClimateNetwork(<%d nodes>).%s(anomaly %dx%d)" % (
+                    objN, {"csm": "calculate_similarity_measure", "mi": "mutual_information",
+                           "mi-dump": "mutual_information", "worker":
+                           "_cython_calculate_mutual_information"}[how], T, k)} if c < 8 else None)
+        if c % 3 == 0:
+            m, T2 = k, rng.choice([1, 2, 3, 5, 8])
+            ms = rng.choice([(m, T2), (m, T2), (objN, T2), (m, 8), (T2, m)])
+            mask = nprng.rand(*ms) < 0.7
+            an2 = dyadic(nprng, (m, T2), -1.0, 1, hit_ends=False)
+            add_api("spearman_obj", f"call spearman {ms[0]} {ms[1]} {m} {T2}",
+                    [variant(mask, "bool"), variant(an2, fdt())], [objN],
+                    f"object-has-{rel}-nodes:" + ("same-shape" if ms == (m, T2) else "mask-shape-differs"),
+                    (objN, ms, m, T2))
+        if c % 4 == 1:
+            s1 = (rng.randrange(1, 5), rng.randrange(1, 6))
+            s2 = s1 if rng.random() < 0.6 else (rng.randrange(1, 5), rng.randrange(1, 6))
+            own = (rng.randrange(1, 5), rng.randrange(2, 7))
+            d1, d2 = dyadic(nprng, s1), dyadic(nprng, s2)
+            if rng.random() < 0.5:
+                add_api("surr_obj", f"call pearson {s1[0]} {s1[1]} {s2[0]} {s2[1]}",
+                        [variant(d1, fdt()), variant(d2, fdt())], [own[0], own[1], "pearson", 0],
+                        "instance-data-differ:pearson", (own, s1, s2))
+            else:
+                nb = rng.choice([1, 2, 3, 32])
+                add_api("surr_obj", f"call tmi {s1[0]} {s1[1]} {s2[0]} {s2[1]} {nb} {enc_data(d1)} "
+                                    f"{enc_data(d2)}",
+                        [variant(d1, fdt()), variant(d2, fdt())], [own[0], own[1], "tmi", nb],
+                        "instance-data-differ:tmi", (own, s1, s2, nb, d1.tobytes().hex(),
+                                                     d2.tobytes().hex()))
     # (N <= 1 is rejected by the ResNetwork / GeoGrid constructors: oracle stream only)
     for N in [2, 3, 5] + ([] if quick else [4, 7]):
         Rm = np.triu(nprng.randint(1, 5, size=(N, N)).astype(float), 1)
@@ -833,8 +878,11 @@ def shrink_req(q):
     return q
 
 
-def mi_model_request(an, nb=32):
-    """emulate mutual_info.py's preprocessing to obtain what reaches the kernel"""
+def mi_model_request(an, nb=32, objN=None):
+    """emulate mutual_info.py's preprocessing to obtain what reaches the kernel; with `objN` the
+    call is made on an object with that many nodes (driver request `call miobj`)"""
+    if objN is not None:
+        return mi_model_request(an, nb).replace("call mi ", f"call miobj {objN} ", 1)
     a = np.array(an, dtype=float)
     T, N = a.shape
     if a.size == 0:
@@ -954,6 +1002,14 @@ def oracle_stream(ctx, rng, nprng, quick):
     for N in (0, 1):
         for fn, args in (("vcfb", [0]), ("vcfb", [1]), ("ecfb", [])):
             add(fn, [A(np.zeros((N, N)), "float64")], args, f"N={N}")
+    # resistances of another size than the network, then the raw-pointer methods
+    for _ in range(6 if quick else 40):
+        N0 = rng.choice([2, 3, 4, 5])
+        N1 = rng.choice([n for n in (1, 2, 3, 4, 6, 8) if n != N0])
+        R0 = np.triu(nprng.randint(1, 5, size=(N0, N0)).astype(float), 1)
+        R1 = np.triu(nprng.randint(1, 5, size=(N1, N1)).astype(float), 1)
+        add("cfb_resize", [A(R0 + R0.T, "float64"), A(R1 + R1.T, "float64")],
+            [rng.randrange(max(N0, N1))], "resistances-" + ("larger" if N1 > N0 else "smaller"))
     # RecurrencePlot with adaptive neighbourhood size (public path of the while kernel)
     for _ in range(14 if quick else 100):
         n = rng.randrange(1, 8)
